@@ -81,6 +81,12 @@ func runOne(w *sched.W, op cm.OpDef, st setting, maxChunk int, stall int, b sche
 			if stall >= 0 {
 				c.Tr.StallAt = o.base + stall
 			}
+			if resumeAt >= 0 && stall >= 0 {
+				time.AfterFunc(resumeAt, func() {
+					c.Tr.Release()
+					e.Poke()
+				})
+			}
 			if st.override == 0 && stall >= 0 {
 				time.AfterFunc(3*tConn, func() {
 					o.blockedAtProbe = !o.returned
@@ -133,6 +139,13 @@ func runOne(w *sched.W, op cm.OpDef, st setting, maxChunk int, stall int, b sche
 	return out
 }
 
+func minDur(a, b time.Duration) time.Duration {
+	if a < b {
+		return a
+	}
+	return b
+}
+
 func sum(c []int) int {
 	n := 0
 	for _, v := range c {
@@ -155,6 +168,10 @@ type facts struct {
 
 var curFacts facts
 
+// resumeAt: when >= 0 the stalled device resumes this long after the call started (phase of the
+// catch-up relative to the timeout: "the timer lands first / the data lands first")
+var resumeAt time.Duration = -1
+
 func judge(e *sched.Env, op cm.OpDef, st setting, stall int, o *outcome, hung string, deviating bool) {
 	tag := fmt.Sprintf("[%s/%s/stall=%d]", op.Name, st.name, stall)
 	if o.setupErr != nil || !o.began {
@@ -173,6 +190,19 @@ func judge(e *sched.Env, op cm.OpDef, st setting, stall int, o *outcome, hung st
 	T := tConn
 	if st.override > 0 {
 		T = st.override
+	}
+	if resumeAt >= 0 {
+		// the device catches up around the timeout: success (with the right result) and a timeout
+		// error are both fine, anything else (panic, hang, early error, wrong result) is not
+		switch {
+		case !o.returned:
+			e.Violate("c05:resume-hang:"+op.Name, "%s device resumed %v after the call started (timeout %v) and the call never returned: %s", tag, resumeAt, T, hung)
+		case o.err == nil && op.Want != "" && o.res != op.Want:
+			e.Violate("c05:resume-result-differs", "%s resumed at %v: result %q want %q", tag, resumeAt, o.res, op.Want)
+		case o.err != nil && o.t1-o.t0 < minDur(T, tConn)-time.Microsecond:
+			e.Violate("c05:resume-early-error", "%s resumed at %v: error %v after only %v", tag, resumeAt, o.err, o.t1-o.t0)
+		}
+		return
 	}
 	lo, hi := T, T
 	if op.ErrClass == "privilege|timeout" || op.Name == "network.SendConfigs" {
@@ -256,6 +286,50 @@ func judge(e *sched.Env, op cm.OpDef, st setting, stall int, o *outcome, hung st
 	}
 }
 
+func resumeScenario(op cm.OpDef, st setting, b sched.Bounds) sched.Scenario {
+	name := fmt.Sprintf("resume/%s/%s/pre=%d/env=%d", op.Name, st.name, b.Pre, b.Env)
+	return sched.Scenario{Name: name, Run: func(w *sched.W) {
+		defer func() { resumeAt = -1 }()
+		T := tConn
+		if st.override > 0 {
+			T = st.override
+		}
+		if r := w.Replaying(); r != nil {
+			var stall, L, Lmin int
+			var ra int64
+			fmt.Sscanf(r.Case, "stall=%d L=%d Lmin=%d resume=%d", &stall, &L, &Lmin, &ra)
+			curFacts = facts{L, Lmin}
+			resumeAt = time.Duration(ra)
+			runOne(w, op, st, 0, stall, b)
+			return
+		}
+		resumeAt = -1
+		curFacts = facts{}
+		dry := runOne(w, op, st, 0, -1, sched.Bounds{})
+		if dry == nil || dry.setupErr != nil || !dry.returned {
+			return
+		}
+		L := dry.sentEnd - dry.base
+		Lmin := len(strings.TrimRight(string(dry.allOut[dry.base:]), " \n\r\t"))
+		curFacts = facts{L, Lmin}
+		points := map[int]bool{0: true, Lmin / 2: true, Lmin - 1: true}
+		for k := range points {
+			if k < 0 {
+				continue
+			}
+			for q := -4; q <= 6; q++ {
+				if w.Expired() {
+					return
+				}
+				resumeAt = T + time.Duration(q)*u/4
+				w.Extra("resume_points", 1)
+				w.SetCase(fmt.Sprintf("stall=%d L=%d Lmin=%d resume=%d", k, L, Lmin, int64(resumeAt)))
+				runOne(w, op, st, 0, k, b)
+			}
+		}
+	}}
+}
+
 func scenario(op cm.OpDef, st setting, maxChunk int, b sched.Bounds, shard, shards int) sched.Scenario {
 	name := fmt.Sprintf("%s/%s/chunk=%d/pre=%d/env=%d/shard=%d.%d", op.Name, st.name, maxChunk, b.Pre, b.Env, shard, shards)
 	return sched.Scenario{Name: name, Run: func(w *sched.W) {
@@ -287,6 +361,13 @@ func scenario(op cm.OpDef, st setting, maxChunk int, b sched.Bounds, shard, shar
 	}}
 }
 
+// operations whose catch-up-around-the-timeout family is explored with one deviation in the quick
+// tier (one per code path); thorough does all
+var quickResume = map[string]bool{
+	"generic.GetPrompt": true, "generic.SendCommand": true, "generic.SendInteractive": true, "generic.SendWithCallbacks-plain": true,
+	"network.AcquirePriv-auth": true, "telnet.Open": true, "ssh.Open": true, "netconf.Open/1.0": true, "netconf.Open/1.1": true, "netconf.Get/1.1": true,
+}
+
 func scenarios(tier string) []sched.Scenario {
 	var out []sched.Scenario
 	for _, op := range cm.Ops() {
@@ -296,6 +377,13 @@ func scenarios(tier string) []sched.Scenario {
 			}
 			for _, mc := range []int{0, 1, 3} {
 				out = append(out, scenario(op, st, mc, sched.Bounds{}, 0, 1))
+			}
+			if st.override != 0 {
+				// the device resumes around the timeout (11 phases x 3 stall points)
+				out = append(out, resumeScenario(op, st, sched.Bounds{}))
+				if tier == "thorough" || (st.name == "conn" && quickResume[op.Name]) {
+					out = append(out, resumeScenario(op, st, sched.Bounds{Pre: 1, Env: 1, Total: 1}))
+				}
 			}
 			// schedule/segmentation deviations around every stall point
 			switch {
